@@ -119,4 +119,16 @@ Lemma code_gen_assigns_fi w fi pvs lits rest : forall f s,
   code_gen_fuel w f s (canon_assigns pvs lits ++ rest) = code_gen_fuel w f s (assigns pvs lits fi ++ rest).
 Proof. intros [|f] s; [reflexivity|]. cbn [code_gen_fuel]. apply gen_assigns_fi. Qed.
 
+(** ... nor does the site of a code-lookup NodeError further on *)
+Lemma gen_site_assigns_fi w gen gsite fi : forall pvs lits s rest,
+  gen_list_site w gen gsite s (canon_assigns pvs lits ++ rest) = gen_list_site w gen gsite s (assigns pvs lits fi ++ rest).
+Proof.
+  induction pvs as [|[p v] pvs IH]; intros lits s rest; [reflexivity|].
+  destruct lits as [|e lits]; [reflexivity|]. cbn [canon_assigns assigns app gen_list_site gen_one gen_one_site].
+  destruct (eval_raw w (cg_r s) e) as [x| |]; cbn [bind fst]; try reflexivity. apply IH.
+Qed.
+Lemma code_gen_site_assigns_fi w fi pvs lits rest : forall f s,
+  code_gen_site w f s (canon_assigns pvs lits ++ rest) = code_gen_site w f s (assigns pvs lits fi ++ rest).
+Proof. intros [|f] s; [reflexivity|]. cbn [code_gen_site]. apply gen_site_assigns_fi. Qed.
+
 Print Assumptions lift_pair.
